@@ -188,17 +188,18 @@ theorem legal_run :
                   "emit:time_step__prepare", "emit:time_step", "emit:time_step__cleanup", "emit:collect_metrics",
                   "emit:simulation_end", "emit:report"] } := by decide
 
-/-- every state change in a context method precedes every listener-running action of the same
-lifecycle state (no listener runs before the state is validated and entered). -/
+def isEventAct : Viv.Gen.Act → Bool
+  | .emit _ => true | .create => true | .setupComponents => true | _ => false
+
+def isSetAct : Viv.Gen.Act → Bool
+  | .set _ => true | _ => false
+
+/-- in every context method a state change precedes the first listener-running action (so no
+listener can run before the requested transition has been validated and entered). -/
 theorem set_precedes_emit :
     (Viv.Gen.skeleton.all fun (_, acts) =>
-      match (expand acts).find? (fun a => match a with | .emit _ => true | .create => true | .setupComponents => true | _ => false) with
-      | none => true
-      | some firstEv =>
-        match (expand acts).head? with
-        | some (.set _) => true
-        | some (.loopBegin _) => (expand acts).drop 1 |>.head? |>.any (fun a => match a with | .set _ => true | _ => false)
-        | _ => firstEv == firstEv && false) = true := by decide
+      let ex := expand acts
+      !(ex.any isEventAct) || (ex.takeWhile (fun a => !isEventAct a)).any isSetAct) = true := by decide
 
 -- non-vacuity: the hypotheses of the general theorems are inhabited by the engine lifecycle
 example : Legal lifecycle "initialization" ["setup", "post_setup", "population_creation", "time_step__prepare"] := by
